@@ -101,7 +101,7 @@ class Monitor(Job):
         self.bounds = dict(mode=mode, events=nev, ping_interval="any real > 0",
                            pong_latency="any real >= 0 per ping (responsive: < interval; silent-after-j: none after a solver-chosen ping; free: any or never)")
         self.must_reach = {"responsive": ("nt:never-dropped",), "silent": ("nt:dropped",), "free": ("nt:dropped", "nt:never-dropped"),
-                           "loss": ("nt:lost-quiet",), "follower": ("nt:follower-no-ping",)}[mode]
+                           "loss": ("nt:lost-quiet",), "follower": ("nt:follower-no-ping",), "backpressure": ("nt:never-dropped",)}[mode]
 
     def scenario(self):
         I = fresh_real("interval", 0, lo_strict=True)
@@ -123,14 +123,28 @@ class Monitor(Job):
             lat = {}
             lost_at = None
             pings_seen = 0
+            bp = []
+            tpaused = False
+            if self.mode == "backpressure":
+                eng().inputs["bp"] = bp
             for step in range(self.nev):
+                if self.mode == "backpressure":
+                    # the connection's transport applies / releases back-pressure on Outbound (its registered producer) at any time
+                    ch = eng().choose(2, "bp%d" % step)
+                    bp.append(ch)
+                    if ch:
+                        if tpaused:
+                            m._outbound.resumeProducing()
+                        else:
+                            m._outbound.pauseProducing()
+                        tpaused = not tpaused
                 # decide the fate of newly sent pings
                 sends = [e for e in log if e[0] == "send" and e[1] == "Ping"]
                 for k, e in enumerate(sends):
                     if e[2] in decided:
                         continue
                     decided.add(e[2])
-                    if self.mode in ("responsive", "loss", "follower"):
+                    if self.mode in ("responsive", "loss", "follower", "backpressure"):
                         d = fresh_real("latency%d" % k, 0)
                         eng().assume((d < I).t)
                     elif self.mode == "silent":
@@ -208,12 +222,12 @@ class Monitor(Job):
                     ref = ts            # answered in send order (FIFO link): last one wins
                 check(D <= ref + I * 2, "silent connection dropped later than the second timer expiry after the last answered ping")
                 check(D < ref + I * 3, "silent connection kept for three ping intervals or more")
-                if self.mode in ("responsive", "loss"):
+                if self.mode in ("responsive", "loss", "backpressure"):
                     check(False, "a connection whose peer answered every ping within one interval was dropped")
                 check(m._connection is None or True, "x")
                 eng().note("nt:dropped")
             else:
-                if self.mode in ("responsive", "loss"):
+                if self.mode in ("responsive", "loss", "backpressure"):
                     check(len(sends) >= 2, "the monitor stopped pinging a live connection")
                 if self.mode == "silent":
                     # enough events were allowed for the monitor to act: silence began at ping `silent_from`
@@ -237,7 +251,14 @@ class Monitor(Job):
             decided = set()
             pongs = []
             answered = []
+            tpaused = False
             for step in range(self.nev):
+                if self.mode == "backpressure" and step < len(inp.get("bp", [])) and inp["bp"][step]:
+                    if tpaused:
+                        m._outbound.resumeProducing()
+                    else:
+                        m._outbound.pauseProducing()
+                    tpaused = not tpaused
                 sends = [e for e in log if e[0] == "send" and e[1] == "Ping"]
                 for k, e in enumerate(sends):
                     if e[2] in decided:
@@ -290,7 +311,7 @@ class Monitor(Job):
                     return "interval %r: monitoring did not resume after a monitor-initiated reconnect" % (I,)
                 D = disc[0][1]
                 ref = answered[-1][0] if answered else 0.0
-                if self.mode in ("responsive", "loss"):
+                if self.mode in ("responsive", "loss", "backpressure"):
                     return "interval %r, every pong within one interval (%r): dropped at %r" % (I, {k: v for k, v in inp.items() if k.startswith("lat")}, D)
                 if D > ref + 2 * I + 1e-9 or D >= ref + 3 * I:
                     return "interval %r: last answered ping sent at %r, dropped only at %r" % (I, ref, D)
@@ -307,7 +328,7 @@ class Monitor(Job):
 def jobs(tier):
     thorough = tier == "thorough"
     n = 10 if thorough else 7
-    return [Monitor("responsive", n), Monitor("silent", n), Monitor("free", n - 1), Monitor("loss", n - 2), Monitor("follower", 4)]
+    return [Monitor("responsive", n), Monitor("silent", n), Monitor("free", n - 1), Monitor("loss", n - 2), Monitor("follower", 4), Monitor("backpressure", n - 1)]
 
 
 ASSUMPTIONS = [
